@@ -319,7 +319,7 @@ pub fn run(tier: &str) -> i32 {
     ];
     let quick = tier == "quick";
     // ---------------- oracle 1: all n in range
-    let max_n: u32 = if quick { 8192 } else { 65536 };
+    let max_n: u32 = if quick { 8192 } else { 131072 };
     let chunk = 256u32;
     let chunks = ((max_n + chunk - 1) / chunk) as usize;
     let t1 = par_map(chunks, workers(), move |ci| {
@@ -341,7 +341,7 @@ pub fn run(tier: &str) -> i32 {
     if !quick {
         let mut rng = Rng::new(run_seed(vs, "C16", "bign", 0));
         for _ in 0..600 {
-            extra_n.push(rng.range(65537, 1 << 20) as u32);
+            extra_n.push(rng.range(131073, 1 << 20) as u32);
         }
         for k in 17..=24u32 {
             extra_n.push(1 << k);
@@ -406,14 +406,14 @@ pub fn run(tier: &str) -> i32 {
 
     // ---------------- oracle 2/3: conservation runs
     let mut ns: Vec<(u32, bool)> = vec![];
-    let dense = if quick { 64 } else { 512 };
+    let dense = if quick { 64 } else { 1024 };
     for n in 1..=dense {
         ns.push((n, false));
         ns.push((n, true));
     }
     {
         let mut rng = Rng::new(run_seed(vs, "C16", "cons-n", 0));
-        let sampled = if quick { 160 } else { 1500 };
+        let sampled = if quick { 160 } else { 3000 };
         for _ in 0..sampled {
             let n = match rng.below(4) {
                 0 => rng.range(1177, 2048) as u32,
